@@ -756,17 +756,17 @@ Qed.
 
 (* ================================================================ rule variables are expanded lazily *)
 
-(* a rule block stores its values unevaluated: whatever the scope holds when the rule is declared, the text is kept
-   verbatim (and is found again under the rule's name) *)
+(* a rule block stores its values unevaluated: [rule_bindings] does not even take the scope as an argument, so
+   whatever the scope holds when the rule is declared the text is kept verbatim, under the rule's name *)
 Theorem rule_text_stored_verbatim sc st n binds :
-  lookup_rule (fst (run_rule sc st n binds)) n = Some (fst (rule_bindings binds [])) /\
-  forall sc', fst (rule_bindings binds []) = fst (rule_bindings binds []) /\ 
-              lookup_rule (fst (run_rule sc' st n binds)) n = Some (fst (rule_bindings binds [])).
+  lookup_rule (fst (run_rule sc st n binds)) n = Some (fst (rule_bindings binds [])).
 Proof.
-  assert (H : forall s, lookup_rule (fst (run_rule s st n binds)) n = Some (fst (rule_bindings binds []))).
-  { intros s. unfold run_rule. destruct (rule_bindings binds []) as [r e1]. cbn [fst]. apply lookup_rule_set_same. }
-  split; [apply H | intros sc'; split; [reflexivity | apply H]].
+  unfold run_rule. destruct (rule_bindings binds []) as [r e1]. cbn [fst]. apply lookup_rule_set_same.
 Qed.
+
+Theorem rule_binding_verbatim k text : is_rule_var_name k = true ->
+  aget k (fst (rule_bindings [BBind k text] [])) = Some text.
+Proof. intros H. cbn [rule_bindings]. rewrite H. cbn [rule_bindings fst aset aget]. rewrite bytes_eqb_refl. reflexivity. Qed.
 
 Lemma special_command : ~ special_name nm_command.
 Proof. intros [H|[H|H]]; discriminate H. Qed.
@@ -847,4 +847,56 @@ Proof.
     rewrite Hcx, bytes_eqb_refl. reflexivity.
   - cbn [aget]. rewrite bytes_eqb_refl. reflexivity.
   - cbn [aget]. apply bytes_eqb_neq in Hxc. rewrite Hxc. reflexivity.
+Qed.
+
+(* ================================================================ what include / subninja leave behind *)
+
+(* a binding made by the last decl of an included file is visible in the includer afterwards *)
+Theorem include_binding_visible f stack wd fs sc st ptext path es ds0 x v :
+  eval_in_scope sc ptext = (path, es) -> enterable stack wd fs path (ds0 ++ [DBinding x v]) -> no_dollar v ->
+  lookup_binding (fst (run_decls (S f) stack wd fs [DInclude true ptext] (sc, st))) x = v.
+Proof.
+  intros He Hen Hv. rewrite (include_shares_scope f stack wd fs sc st ptext path es _ [] He Hen).
+  rewrite run_decls_nil, run_decls_app, run_decls_cons, run_decls_nil.
+  destruct (run_decls f (make_absolute wd path :: stack) wd fs ds0 (sc, add_errors st es)) as [sc1 st1].
+  cbn [step run_simple]. unfold eval_in_scope. rewrite (eval_string_literal _ _ v Hv). cbn [fst].
+  apply lookup_binding_set_same.
+Qed.
+
+(* ... and so is a rule declared by the last decl of an included file *)
+Theorem include_rule_visible f stack wd fs sc st ptext path es ds0 rn binds :
+  eval_in_scope sc ptext = (path, es) -> enterable stack wd fs path (ds0 ++ [DRule rn binds]) ->
+  lookup_rule (fst (run_decls (S f) stack wd fs [DInclude true ptext] (sc, st))) rn = Some (fst (rule_bindings binds [])).
+Proof.
+  intros He Hen. rewrite (include_shares_scope f stack wd fs sc st ptext path es _ [] He Hen).
+  rewrite run_decls_nil, run_decls_app, run_decls_cons, run_decls_nil.
+  destruct (run_decls f (make_absolute wd path :: stack) wd fs ds0 (sc, add_errors st es)) as [sc1 st1].
+  cbn [step run_simple]. apply rule_text_stored_verbatim.
+Qed.
+
+(* after a subninja decl - whatever the file contains, whether or not it can be entered - the scope is what it
+   was: no binding and no rule made in the file is visible in the parent *)
+Theorem subninja_scope_restored fuel stack wd fs sc st ptext :
+  fst (run_decls fuel stack wd fs [DInclude false ptext] (sc, st)) = sc.
+Proof.
+  rewrite run_decls_cons, run_decls_nil. unfold step. cbv beta iota zeta.
+  destruct (eval_in_scope sc ptext) as [path es].
+  destruct (Nat.leb max_include_depth (length stack)); [reflexivity|].
+  destruct (mem_bytes (make_absolute wd path) stack); [reflexivity|].
+  destruct fuel as [|f]; [reflexivity|].
+  destruct (find_file fs (make_absolute wd path)); reflexivity.
+Qed.
+
+(* inside the subninja file the parent's earlier bindings and rules are visible: the file starts in the scope
+   [empty_frame :: sc] (subninja_nests), which answers every lookup like sc (child_scope_sees_parent) until the
+   file shadows a name in its own frame *)
+Theorem subninja_child_start f stack wd fs sc st ptext path es ds x rn :
+  eval_in_scope sc ptext = (path, es) -> enterable stack wd fs path ds ->
+  snd (run_decls (S f) stack wd fs [DInclude false ptext] (sc, st)) =
+  snd (run_decls f (make_absolute wd path :: stack) wd fs ds (empty_frame :: sc, add_errors st es)) /\
+  lookup_binding (empty_frame :: sc) x = lookup_binding sc x /\
+  lookup_rule (empty_frame :: sc) rn = lookup_rule sc rn.
+Proof.
+  intros He Hen. rewrite (subninja_nests f stack wd fs sc st ptext path es ds [] He Hen), run_decls_nil.
+  repeat split.
 Qed.
